@@ -208,6 +208,30 @@ def oracle_c12(case, got):
         fl += 1
     return "ok %d" % fl
 
+def oracle_c12_rational(case, got):
+    """rational arithmetic is exact and closed: the result is the exact Fraction result, as a Rational; None = no opinion"""
+    if case['cls'] != 2: return None
+    def val(o): return Fraction(o[1], o[2])
+    a, b, c = val(case['A']), val(case['B']), val(case['C'])
+    op = case['op']
+    try:
+        if op == 1: x = a + b
+        elif op == 2: x = a - b
+        elif op == 3: x = -a
+        elif op == 4: x = +a
+        elif op == 5: x = abs(a)
+        elif op == 7: x = a * b
+        elif op == 9: x = a / b
+        elif op == 10: x = a * b
+        elif op == 11: x = a / b
+        elif op == 12: x = a * b / c
+        else: return None
+    except ZeroDivisionError:
+        return got if got.startswith("exn ") else "exn ZeroDivisionError"
+    if op in (10, 11, 12) and case['rnd'] in (2, 3):
+        return None
+    return "ok %d/%d" % (x.numerator, x.denominator)
+
 def oracle_c14(case, got):
     """printed form = exact value rounded half-up to the display digits, sign shown correctly"""
     if case['op'] != 21 or not got.startswith('str '): return None
